@@ -78,7 +78,7 @@ def r1_gate_chain(ctx):
     # (f) MelPoW
     pw = [(bi, e) for bi, e in calls if q.is_call(e, "proof_is_tip910")]
     gate("melpow", pw, V(1), "failed MelPoW ⇒ no Ok", "with MelPoW failing Ok is reachable")
-    PUZ = "tmelcrypt::hash_keyed(Header::hash(try(SmtMapping::get($1.history, COIN.height))), Result::unwrap(stdcode::serialize(Option::unwrap(core::slice::<impl [T]>::get($3.inputs, 0)))))"
+    PUZ = "tmelcrypt::hash_keyed(Header::hash(try(SmtMapping::get($1.history, COIN.height))), StdcodeSerializeExt::stdcode(Option::unwrap(core::slice::<impl [T]>::get($3.inputs, 0))))"
     for bi, e in pw:
         got = [A(a) for a in e[2]]
         want = ["try(Proof::from_bytes(DATA.1))", PUZ, "DATA.0"]
